@@ -7,6 +7,7 @@ import re
 import tempfile
 
 from mbt.engine import dec
+from drivers import common as _common
 from drivers.common import run_async
 
 NAME_OK = set("abcdefghijklmnopqrstuvwxyzABCDEFGHIJKLMNOPQRSTUVWXYZ0123456789-")
@@ -203,22 +204,22 @@ def grammars(case):
     if case["route"] == "FIELDS":
         text = fields_doc(case)
         add("api", lambda: GBNFCompiler().compile_schema(extract_schema_from_document(parse(text)), include_envelope=case["envelope"]))
-        add("tool_content", lambda: run_async(CompileGrammarTool().execute(content=text)).get("grammar"))
-        add("eject_gbnf", lambda: run_async(EjectTool().execute(content=text, schema="META", format="gbnf")).get("output"))
+        add("tool_content", lambda: run_async(_common.tool("grammar").execute(content=text)).get("grammar"))
+        add("eject_gbnf", lambda: run_async(_common.tool("eject").execute(content=text, schema="META", format="gbnf")).get("output"))
         sp = os.path.join(d, "specs", "schemas", "gen_g.oct.md")
         with open(sp, "w", encoding="utf-8") as f:
             f.write(text)
-        add("tool_schema", lambda: run_async(CompileGrammarTool().execute(schema="GEN_G")).get("grammar"))
+        add("tool_schema", lambda: run_async(_common.tool("grammar").execute(schema="GEN_G")).get("grammar"))
         inst = "===I===\nGEN_G:\n  ZZ_UNDECLARED::1\n===END===\n"
-        add("validate_hint", lambda: run_async(ValidateTool().execute(content=inst, schema="GEN_G", grammar_hint=True)).get("grammar_hint", {}).get("grammar"))
-        add("write_hint", lambda: run_async(WriteTool().execute(target_path=os.path.join(d, "h.oct.md"), content=inst, schema="GEN_G", grammar_hint=True,
+        add("validate_hint", lambda: run_async(_common.tool("validate").execute(content=inst, schema="GEN_G", grammar_hint=True)).get("grammar_hint", {}).get("grammar"))
+        add("write_hint", lambda: run_async(_common.tool("write").execute(target_path=os.path.join(d, "h.oct.md"), content=inst, schema="GEN_G", grammar_hint=True,
                                                                 corrections_only=True)).get("grammar_hint", {}).get("grammar"))
         os.unlink(sp)
     else:
         text = contract_doc(case)
         add("api_contract", lambda: compile_gbnf_from_meta(parse(text).meta))
-        add("tool_content_contract", lambda: run_async(CompileGrammarTool().execute(content=text)).get("grammar"))
-        add("eject_gbnf_contract", lambda: run_async(EjectTool().execute(content=text, schema="META", format="gbnf")).get("output"))
+        add("tool_content_contract", lambda: run_async(_common.tool("grammar").execute(content=text)).get("grammar"))
+        add("eject_gbnf_contract", lambda: run_async(_common.tool("eject").execute(content=text, schema="META", format="gbnf")).get("output"))
         specs = ["FIELD[%s]::%s" % (field_name(f["name"]), chain_text(f["chain"])) for f in case["fields"]]
         add("api_contract_strings", lambda: compile_gbnf_from_meta({"TYPE": "GEN_G", "VERSION": "1.0", "CONTRACT": specs}))
     return out
